@@ -1,0 +1,13 @@
+//go:build verif
+
+package extractor
+
+import (
+	"github.com/markusmobius/go-domdistiller/internal/stringutil"
+	"golang.org/x/net/html"
+)
+
+// VerifDocumentTitle is getDocumentTitle.
+func VerifDocumentTitle(root *html.Node, wc stringutil.WordCounter) string {
+	return getDocumentTitle(root, wc)
+}
